@@ -1,5 +1,1143 @@
-//! C11 — not built yet.
+//! C11 — TFM<->PL conversion is an idempotent normalisation that preserves the font.
+//! Engine: BEX. DESIGN.md §3 C11. Oracles: byte fixed point, the independent reader reftex::tfmraw,
+//! and reftex::ligkern (TeX's main loop) on the raw instruction words of both files for every pair.
+
+#[path = "../../c05/src/gen.rs"]
+mod gen;
+use gen::*;
+
+use reftex::ligkern::{self as lk, Font, Node};
+use reftex::tfmraw::{self, store_scaled, Raw};
+use serde_json::{json, Value};
+use std::fmt::Write as _;
+use tfm::ligkern::{CompiledProgram, RunItem, RunOptions};
+use vcore::{catch, Acc, Ctx, Level};
+
+const RUN_BUDGET: usize = 100_000;
+
+// ------------------------------------------------------------------ the two conversions
+
+struct Conv {
+    pl: Result<String, String>,
+    messages: Vec<String>,
+}
+
+fn tftopl(b: &[u8]) -> Result<Conv, vcore::Panic> {
+    catch(|| {
+        let o = tfm::algorithms::tfm_to_pl(b, 3, &|_| tfm::pl::CharDisplayFormat::Default).expect("formatting into a String cannot fail");
+        Conv { pl: o.pl_data.map_err(|e| format!("{e:?}")), messages: o.error_messages.iter().map(|m| m.tftopl_message()).collect() }
+    })
+}
+fn pltotf(pl: &str) -> Result<(Vec<u8>, Vec<String>), vcore::Panic> {
+    catch(|| {
+        let (b, w) = tfm::algorithms::pl_to_tfm(pl);
+        (b, w.iter().map(|x| format!("{:?}", x.kind)).collect())
+    })
+}
+
+// ------------------------------------------------------------------ "the same font" through tfmraw
+
+#[derive(Debug, PartialEq, Eq, Default)]
+struct Hdr {
+    checksum: u32,
+    design_size: i32,
+    scheme: Option<Vec<u8>>,
+    family: Option<Vec<u8>>,
+    seven_bit_safe: Option<bool>,
+    face: Option<u8>,
+    extra: Vec<[u8; 4]>,
+}
+fn hdr(r: &Raw) -> Hdr {
+    let bytes: Vec<u8> = r.header.iter().flatten().copied().collect();
+    let bcpl = |off: usize, size: usize| -> Vec<u8> {
+        let len = (bytes[off] as usize).min(size - 1);
+        bytes[off + 1..off + 1 + len].to_vec()
+    };
+    Hdr {
+        checksum: r.checksum(),
+        design_size: r.design_size(),
+        scheme: if r.lh >= 12 { Some(bcpl(8, 40)) } else { None },
+        family: if r.lh >= 17 { Some(bcpl(48, 20)) } else { None },
+        seven_bit_safe: if r.lh >= 18 { Some(bytes[68] > 127) } else { None },
+        face: if r.lh >= 18 { Some(bytes[71]) } else { None },
+        extra: r.header.iter().skip(18).copied().collect(),
+    }
+}
+
+/// PLtoTF §110-§113 `seven_unsafe`, computed on the TFM arrays: a seven-bit character whose lig/kern
+/// program inserts an eight-bit character next to a seven-bit one, whose NEXTLARGER is an eight-bit
+/// character, or whose extensible recipe has an eight-bit piece.
+fn seven_bit_safe(r: &Raw) -> bool {
+    let f = lig_font(r);
+    for c in r.chars() {
+        if c >= 128 {
+            continue;
+        }
+        let Some(m) = r.metrics(c as usize) else { continue };
+        match m.tag {
+            1 => {
+                for (_, w) in lk::chain(&f, c as i32) {
+                    if w[0] <= 128 && w[1] < 128 && w[2] < 128 && w[3] >= 128 {
+                        return false;
+                    }
+                }
+            }
+            2 if m.remainder >= 128 => return false,
+            3 => {
+                if let Some(e) = r.exten.get(m.remainder as usize) {
+                    if e.iter().any(|x| *x >= 128) {
+                        return false;
+                    }
+                }
+            }
+            _ => {}
+        }
+    }
+    true
+}
+
+fn lig_font(r: &Raw) -> Font {
+    Font::from_tfm(r.lig_kern.clone(), &r.lig_starts())
+}
+
+/// Nodes with kerns replaced by their fix_word value (kern tables may be reordered).
+#[derive(Debug, PartialEq, Eq, Clone)]
+enum VNode {
+    Char(u8),
+    Lig(u8, Vec<u8>, bool, bool),
+    Kern(Option<i32>),
+}
+fn vnodes(r: &Raw, nodes: &[Node]) -> Vec<VNode> {
+    nodes
+        .iter()
+        .map(|n| match n {
+            Node::Char(c) => VNode::Char(*c),
+            Node::Lig { c, orig, left, right } => VNode::Lig(*c, orig.clone(), *left, *right),
+            Node::Kern(k) => VNode::Kern(r.kern.get(*k).copied()),
+        })
+        .collect()
+}
+
+/// The words that exercise every (left in chars ∪ boundary, right in chars ∪ boundary) pair.
+fn pair_words(chars: &[u8]) -> Vec<(Vec<u8>, bool)> {
+    let mut out = vec![];
+    for l in chars {
+        out.push((vec![*l], false)); // (l, right boundary)
+        out.push((vec![*l], true)); // (left boundary, l) [and whatever follows]
+    }
+    for l in chars {
+        for r in chars {
+            out.push((vec![*l, *r], false));
+        }
+    }
+    out
+}
+
+fn show_word(w: &[u8], lb: bool) -> String {
+    format!("{}{:?}", if lb { "|" } else { "" }, w.iter().map(|c| if c.is_ascii_graphic() { (*c as char).to_string() } else { format!("\\{c:o}") }).collect::<String>())
+}
+
+struct Diff(String, String, String); // (what, expected/original, observed/canonical)
+
+/// Compare original and canonical file; returns the first difference.
+fn same_font(r0: &Raw, r1: &Raw, acc: &mut Acc) -> Option<Diff> {
+    let (c0, c1) = (r0.chars(), r1.chars());
+    if c0 != c1 {
+        return Some(Diff("character sets differ".into(), format!("{c0:?}"), format!("{c1:?}")));
+    }
+    for c in &c0 {
+        let (m0, m1) = (r0.metrics(*c as usize), r1.metrics(*c as usize));
+        let (Some(m0), Some(m1)) = (m0.clone(), m1.clone()) else {
+            return Some(Diff(format!("character {c}: a dimension index leaves its table"), format!("{m0:?}"), format!("{m1:?}")));
+        };
+        if (m0.width, m0.height, m0.depth, m0.italic, m0.tag) != (m1.width, m1.height, m1.depth, m1.italic, m1.tag) {
+            return Some(Diff(format!("character {c}: width/height/depth/italic/tag differ"), format!("{m0:?}"), format!("{m1:?}")));
+        }
+        match m0.tag {
+            2 if m0.remainder != m1.remainder => return Some(Diff(format!("character {c}: next larger character differs"), m0.remainder.to_string(), m1.remainder.to_string())),
+            3 => {
+                let (e0, e1) = (r0.exten.get(m0.remainder as usize), r1.exten.get(m1.remainder as usize));
+                if e0 != e1 {
+                    return Some(Diff(format!("character {c}: extensible recipe differs"), format!("{e0:?}"), format!("{e1:?}")));
+                }
+                acc.count("char_with_extensible_recipe");
+            }
+            _ => {}
+        }
+        if m0.tag == 2 {
+            acc.count("char_with_next_larger");
+        }
+    }
+    // parameters (a property list cannot carry more than 254, PLtoTF §11 max_param_words)
+    if r0.np <= 254 {
+        if r0.param != r1.param {
+            return Some(Diff("font parameters differ".into(), format!("{:?}", r0.param), format!("{:?}", r1.param)));
+        }
+    } else {
+        acc.count("info_more_than_254_parameters_not_compared");
+    }
+    // header: every field the original has. BCPL strings modulo ASCII case (TFtoPL §35 writes lower
+    // case letters as upper case, silently). The seven-bit-safe flag of the canonical file is
+    // *computed* by PLtoTF (recorded by Knuth's own programs in the corpus: ctan/rashii2-1.tfm has
+    // the flag off, rashii2-4.plst has it on): it must equal the independent computation on the
+    // original, and may not go from on to off.
+    let (h0, h1) = (hdr(r0), hdr(r1));
+    let up = |s: &Option<Vec<u8>>| s.as_ref().map(|v| v.to_ascii_uppercase());
+    let mut same = h0.checksum == h1.checksum && h0.design_size == h1.design_size;
+    same &= h0.scheme.is_none() || up(&h0.scheme) == up(&h1.scheme);
+    same &= h0.family.is_none() || up(&h0.family) == up(&h1.family);
+    same &= h0.face.is_none() || h0.face == h1.face;
+    same &= h0.extra == h1.extra;
+    if !same {
+        return Some(Diff("header differs".into(), format!("{h0:?}"), format!("{h1:?}")));
+    }
+    if h0.scheme != h1.scheme || h0.family != h1.family {
+        acc.count("info_header_string_case_normalised");
+    }
+    let safe = seven_bit_safe(r0);
+    if !safe {
+        acc.count("seven_bit_unsafe_fonts");
+    }
+    if h1.seven_bit_safe != Some(safe) || (h0.seven_bit_safe == Some(true) && h1.seven_bit_safe != Some(true)) {
+        return Some(Diff("seven-bit-safe flag of the canonical file is not the computed one".into(), format!("flag {:?}, font is seven-bit safe: {safe}", h0.seven_bit_safe), format!("flag {:?}", h1.seven_bit_safe)));
+    }
+    if r0.lh < 18 {
+        acc.count("info_original_header_shorter_than_18_words");
+    }
+    // boundary character
+    if r0.boundary_char() != r1.boundary_char() {
+        // only observable if some program tests for it; the pair comparison below decides
+        acc.count("info_boundarychar_word_differs");
+    }
+    // lig/kern behaviour on every pair
+    let (f0, f1) = (lig_font(r0), lig_font(r1));
+    if r0.nl == 0 && r1.nl == 0 {
+        return None;
+    }
+    let mut any = false;
+    for (w, lb) in pair_words(&c0) {
+        let a = lk::run(&f0, &w, lb, f0.bchar, RUN_BUDGET);
+        let b = lk::run(&f1, &w, lb, f1.bchar, RUN_BUDGET);
+        let (Some(a), Some(b)) = (a, b) else {
+            return Some(Diff(format!("word {}: the reference interpreter does not terminate although TFtoPL reported no infinite loop", show_word(&w, lb)), "terminates".into(), "more than 100000 ligature commands".into()));
+        };
+        any |= !a.fired.is_empty();
+        if a.fired.iter().any(|f| f.k > 255) || b.fired.iter().any(|f| f.k > 255) {
+            acc.count("instruction_beyond_255_fired");
+        }
+        if a.fired.iter().any(|f| f.left_boundary) {
+            acc.count("left_boundary_rule_fired");
+        }
+        if a.fired.iter().any(|f| f.right_boundary) {
+            acc.count("right_boundary_rule_fired");
+        }
+        let (va, vb) = (vnodes(r0, &a.nodes), vnodes(r1, &b.nodes));
+        if va != vb {
+            return Some(Diff(format!("lig/kern behaviour differs on word {}", show_word(&w, lb)), format!("{va:?}"), format!("{vb:?}")));
+        }
+    }
+    if any {
+        acc.count("fonts_with_firing_ligkern_program");
+    }
+    None
+}
+
+// ------------------------------------------------------------------ CompiledProgram::compile_from_tfm_file on all pairs
+
+#[derive(Clone, Debug, PartialEq)]
+enum Out {
+    G(u8),
+    K(i64),
+}
+
+fn compiled_vs_model(b: &[u8], r: &Raw, phantom: bool) -> Option<Diff> {
+    if r.nl == 0 {
+        return None;
+    }
+    let mut font = lig_font(r);
+    font.exec_stop_words = phantom;
+    let chars = r.chars();
+    let z = (r.design_size() / 16) as i64;
+    let res = catch(|| {
+        let mut file = tfm::File::deserialize(b).0.expect("already converted once");
+        let (cp, errs) = CompiledProgram::compile_from_tfm_file(&mut file);
+        let mut diff = None;
+        if !errs.is_empty() {
+            return Some(Diff("compile_from_tfm_file reports an infinite loop in a font TFtoPL accepted without message".into(), "no loop".into(), format!("{errs:?}")));
+        }
+        for (w, lb) in pair_words(&chars) {
+            let Some(m) = lk::run(&font, &w, lb, font.bchar, RUN_BUDGET) else { continue };
+            let want: Option<Vec<Out>> = m
+                .nodes
+                .iter()
+                .map(|n| match n {
+                    Node::Char(c) => Some(Out::G(*c)),
+                    Node::Lig { c, .. } => Some(Out::G(*c)),
+                    Node::Kern(k) => r.kern.get(*k).and_then(|v| store_scaled(*v, z)).map(Out::K),
+                })
+                .collect();
+            let Some(want) = want else { continue };
+            let mut got = vec![];
+            let mut spelled = vec![];
+            let opts = RunOptions { disable_left_boundary: !lb, right_boundary_override: None };
+            for it in cp.run_with_options(w.iter().map(|c| *c as char), opts).take(100_000) {
+                match it {
+                    RunItem::Char(c) => {
+                        got.push(Out::G(c as u8));
+                        spelled.push(c as u8);
+                    }
+                    RunItem::Kern(k) => got.push(Out::K(k.0 as i64)),
+                    RunItem::Ligature(l) => {
+                        got.push(Out::G(l.c as u8));
+                        spelled.extend(l.original.chars().map(|c| c as u8));
+                    }
+                }
+            }
+            if got != want {
+                diff = Some(Diff(format!("compiled program differs from the reference interpreter on word {}", show_word(&w, lb)), format!("{want:?}"), format!("{got:?}")));
+                break;
+            }
+            if spelled != w {
+                diff = Some(Diff(format!("compiled program: recorded characters do not spell word {}", show_word(&w, lb)), format!("{w:?}"), format!("{spelled:?}")));
+                break;
+            }
+        }
+        diff
+    });
+    match res {
+        Ok(d) => d,
+        Err(p) => Some(Diff("compile_from_tfm_file / run panicked".into(), "returns".into(), p.describe())),
+    }
+}
+
+// ------------------------------------------------------------------ the check of one original file
+
+fn hex(b: &[u8]) -> String {
+    b.iter().map(|x| format!("{x:02x}")).collect()
+}
+fn unhex(s: &str) -> Vec<u8> {
+    (0..s.len() / 2).map(|i| u8::from_str_radix(&s[2 * i..2 * i + 2], 16).unwrap_or(0)).collect()
+}
+
+/// `origin` describes how b0 was obtained (replay rebuilds from `hex`/`pl`). `expect_clean`: the
+/// generator claims the file is warning-free, so a message is a generator problem worth a class.
+fn check_tfm(idx: u64, b0: &[u8], origin: &dyn Fn() -> Value, acc: &mut Acc) {
+    acc.eval();
+    let case = || {
+        let mut v = origin();
+        if v.get("pl").is_none() && v.get("file").is_none() {
+            v["hex"] = json!(hex(b0));
+        }
+        v
+    };
+    macro_rules! fail {
+        ($exp:expr, $obs:expr, $note:expr) => {{
+            acc.fail(idx, case(), $exp, $obs, $note);
+            acc.class(&format!("FAIL {}", $note));
+            return;
+        }};
+    }
+    let o1 = match tftopl(b0) {
+        Ok(o) => o,
+        Err(p) => fail!("returns", p.describe(), "tfm_to_pl panicked on the original"),
+    };
+    let p1 = match o1.pl {
+        Ok(p) => p,
+        Err(e) => {
+            acc.skipped += 1;
+            acc.class(&format!("skipped: unreadable ({})", e.split('(').next().unwrap_or("")));
+            return;
+        }
+    };
+    if !o1.messages.is_empty() {
+        acc.skipped += 1;
+        acc.class("skipped: TFtoPL has messages");
+        return;
+    }
+    acc.nontrivial();
+    if std::env::var("VERIF_C11_DUMP").is_ok() {
+        eprintln!("---- p1 ----\n{p1}");
+    }
+    let (b1, w1) = match pltotf(&p1) {
+        Ok(x) => x,
+        Err(p) => fail!("returns", p.describe(), "pl_to_tfm panicked on the PL of a warning-free TFM"),
+    };
+    if !w1.is_empty() {
+        acc.count("info_first_pltotf_has_warnings");
+    }
+    let o2 = match tftopl(&b1) {
+        Ok(o) => o,
+        Err(p) => fail!("returns", p.describe(), "tfm_to_pl panicked on the canonical file"),
+    };
+    let p2 = match o2.pl {
+        Ok(p) => p,
+        Err(e) => fail!("the canonical file is readable", e, "canonical file rejected by the TFM reader"),
+    };
+    if !o2.messages.is_empty() {
+        fail!("no message on the second round trip", format!("{:?}", o2.messages), "TFtoPL has messages on the canonical file");
+    }
+    let (b2, w2) = match pltotf(&p2) {
+        Ok(x) => x,
+        Err(p) => fail!("returns", p.describe(), "pl_to_tfm panicked on the second trip"),
+    };
+    if !w2.is_empty() {
+        fail!("no warning on the second round trip", format!("{w2:?}"), "PLtoTF warns on the second trip");
+    }
+    if b2 != b1 {
+        let pos = b1.iter().zip(b2.iter()).position(|(a, b)| a != b).unwrap_or(b1.len().min(b2.len()));
+        fail!(format!("b2 == b1 ({} bytes)", b1.len()), format!("{} bytes, first difference at byte {pos}; b1={} b2={}", b2.len(), vcore::clip(&hex(&b1), 400), vcore::clip(&hex(&b2), 400)), "canonical file is not a fixed point of the round trip");
+    }
+    if b1 == b0 {
+        acc.count("original_already_canonical");
+    } else {
+        acc.count("original_not_canonical");
+    }
+    if p2 != p1 {
+        acc.count("info_pl_texts_differ");
+    }
+    // the same font, through the independent reader
+    let r0 = match tfmraw::parse(b0) {
+        Ok(r) => r,
+        Err(e) => fail!("the independent reader accepts a file TFtoPL read without message", format!("{e:?}"), "tfmraw rejects the original"),
+    };
+    let r1 = match tfmraw::parse(&b1) {
+        Ok(r) => r,
+        Err(e) => fail!("the independent reader accepts the canonical file", format!("{e:?}"), "tfmraw rejects the canonical file"),
+    };
+    if let Some(Diff(what, a, b)) = same_font(&r0, &r1, acc) {
+        fail!(format!("original: {a}"), format!("canonical: {b}"), format!("canonical file is not the same font: {what}"));
+    }
+    // compiled programs on both files
+    for (which, b, r) in [("original", b0, &r0), ("canonical", b1.as_slice(), &r1)] {
+        if let Some(Diff(what, a, g)) = compiled_vs_model(b, r, false) {
+            // Finding class D23: TeX can reach a word with skip byte > 128 while walking a chain
+            // (predicate on the file) and the compiled program executes it as the ligature/kern
+            // command its bytes spell, as TFtoPL §91 enters it into its loop table (adjusted model).
+            let f = lig_font(r);
+            let reaches_stop_word = (0..=256).any(|x| lk::chain(&f, x).iter().any(|(_, w)| w[0] > 128));
+            if reaches_stop_word && compiled_vs_model(b, r, true).is_none() {
+                acc.known("D23", idx, || {
+                    let mut v = case();
+                    v["which"] = json!(which);
+                    v["difference"] = json!(what);
+                    v["expected_tex"] = json!(a);
+                    v["observed"] = json!(g);
+                    v
+                });
+                acc.class("differs from TeX, equals TFtoPL's phantom reading of a stop word (D23)");
+                return;
+            }
+            fail!(a, g, format!("{which} file: {what}"));
+        }
+    }
+    if r0.nl > 255 || r1.nl > 255 {
+        acc.count("more_than_255_ligkern_words");
+    }
+    if r0.boundary_char().is_some() {
+        acc.count("font_with_boundarychar");
+    }
+    acc.class(&format!("ok chars={} nl={} canonical={}", (r0.chars().len()).min(300) / 32 * 32, r1.nl.min(1024) / 64 * 64, b1 == b0));
+}
+
+/// A generated property list: must be warning-free, its TFM is the original.
+/// `abstract_font`: the lig/kern program the generator meant (raw words before PLtoTF packs them).
+fn check_pl(idx: u64, pl: &str, origin: &dyn Fn() -> Value, abstract_font: Option<(&Font, &[i32], &[u8])>, acc: &mut Acc) {
+    let case = || {
+        let mut v = origin();
+        v["pl"] = json!(pl);
+        v
+    };
+    let (b0, w0) = match pltotf(pl) {
+        Ok(x) => x,
+        Err(p) => {
+            acc.eval();
+            acc.fail(idx, case(), "returns", p.describe(), "pl_to_tfm panicked on a generated property list");
+            return;
+        }
+    };
+    if !w0.is_empty() {
+        // e.g. an infinite ligature loop, a NEXTLARGER cycle: not a warning-free font
+        acc.eval();
+        acc.skipped += 1;
+        acc.class(&format!("skipped: generated PL draws {}", vcore::clip(&w0[0], 40)));
+        return;
+    }
+    if let Some((af, kerns, letters)) = abstract_font {
+        // the TFM must behave like the program written in the property list
+        match tfmraw::parse(&b0) {
+            Err(e) => {
+                acc.eval();
+                acc.fail(idx, case(), "readable TFM", format!("{e:?}"), "tfmraw rejects the output of pl_to_tfm");
+                return;
+            }
+            Ok(r) => {
+                let f = lig_font(&r);
+                for (w, lb) in pair_words(letters) {
+                    let a = lk::run(af, &w, lb, af.bchar, RUN_BUDGET);
+                    let b = lk::run(&f, &w, lb, f.bchar, RUN_BUDGET);
+                    let va = a.as_ref().map(|a| a.nodes.iter().map(|n| match n {
+                        Node::Kern(k) => VNode::Kern(kerns.get(*k).copied()),
+                        Node::Char(c) => VNode::Char(*c),
+                        Node::Lig { c, orig, left, right } => VNode::Lig(*c, orig.clone(), *left, *right),
+                    }).collect::<Vec<_>>());
+                    let vb = b.as_ref().map(|b| vnodes(&r, &b.nodes));
+                    if va != vb {
+                        acc.eval();
+                        acc.fail(idx, case(), format!("{va:?}"), format!("{vb:?}"), format!("the TFM does not behave like the LIGTABLE of the property list on word {}", show_word(&w, lb)));
+                        acc.class("FAIL TFM differs from LIGTABLE");
+                        return;
+                    }
+                }
+                acc.count("ligtable_checked_against_generator");
+            }
+        }
+    }
+    check_tfm(idx, &b0, &case, acc);
+}
+
+// ------------------------------------------------------------------ generators: property lists
+
+const DIMS: [&str; 4] = ["0.0", "1.0", "1.5", "-0.5"];
+
+fn pl_ligtable(p: &Prog) -> String {
+    let mut s = String::new();
+    if let Some(c) = p.rbc {
+        writeln!(s, "(BOUNDARYCHAR C {})", c as char).unwrap();
+    }
+    if p.words.is_empty() {
+        return s;
+    }
+    s.push_str("(LIGTABLE\n");
+    for (i, w) in p.words.iter().enumerate() {
+        if p.lb_start == Some(i) {
+            s.push_str(" (LABEL BOUNDARYCHAR)\n");
+        }
+        for (c, st) in &p.starts {
+            if *st == i {
+                writeln!(s, " (LABEL C {})", *c as char).unwrap();
+            }
+        }
+        let [skip, next, op, rem] = *w;
+        if op >= 128 {
+            writeln!(s, " (KRN C {} R {})", next as char, ["0.1", "-0.25"][rem as usize]).unwrap();
+        } else {
+            let form = FORM_NAMES[FORMS.iter().position(|f| *f == op).expect("standard form")];
+            writeln!(s, " ({form} C {} C {})", next as char, rem as char).unwrap();
+        }
+        match skip {
+            0 => {}
+            128 => s.push_str(" (STOP)\n"),
+            n => writeln!(s, " (SKIP D {n})").unwrap(),
+        }
+    }
+    s.push_str(" )\n");
+    s
+}
+
+fn pl_abc(extra: &str) -> String {
+    format!("(DESIGNSIZE R 10.0)\n{extra}(CHARACTER C a (CHARWD R 1.0))\n(CHARACTER C b (CHARWD R 1.5))\n(CHARACTER C c (CHARWD R 0.5) (CHARHT R 1.0))\n")
+}
+
+/// F-dimensions: A has every (wd,ht,dp,ic) of the lattice, B a 16-element sub-lattice, C present or not.
+fn gen_dimensions(i: u64) -> String {
+    let d = vcore::digits(i, &[4, 4, 4, 4, 2, 2, 2, 2, 2]);
+    let mut s = String::from("(DESIGNSIZE R 10.0)\n");
+    writeln!(s, "(CHARACTER C A (CHARWD R {}) (CHARHT R {}) (CHARDP R {}) (CHARIC R {}))", DIMS[d[0] as usize], DIMS[d[1] as usize], DIMS[d[2] as usize], DIMS[d[3] as usize]).unwrap();
+    writeln!(s, "(CHARACTER C B (CHARWD R {}) (CHARHT R {}) (CHARDP R {}) (CHARIC R {}))", ["1.0", "1.5"][d[4] as usize], ["0.0", "1.5"][d[5] as usize], ["0.0", "-0.5"][d[6] as usize], ["0.0", "1.0"][d[7] as usize]).unwrap();
+    if d[8] == 1 {
+        s.push_str("(CHARACTER C C (CHARWD R 0.0) (CHARHT R -0.5))\n");
+    }
+    s
+}
+const N_DIMENSIONS: u64 = 256 * 16 * 2;
+
+/// F-tags: NEXTLARGER graphs on {A,B,C,D} (every partial function, cycles included) x a VARCHAR on E.
+fn gen_tags(i: u64) -> String {
+    let d = vcore::digits(i, &[5, 5, 5, 5, 3, 3, 3, 2]);
+    let names = ['A', 'B', 'C', 'D'];
+    let mut s = String::from("(DESIGNSIZE R 10.0)\n");
+    for k in 0..4 {
+        write!(s, "(CHARACTER C {} (CHARWD R 1.{k})", names[k]).unwrap();
+        if d[k] > 0 {
+            write!(s, " (NEXTLARGER C {})", names[(d[k] - 1) as usize]).unwrap();
+        }
+        s.push_str(")\n");
+    }
+    let piece = |x: u64, name: &str| -> String {
+        match x {
+            0 => String::new(),
+            1 => format!(" ({name} C A)"),
+            _ => format!(" ({name} C D)"),
+        }
+    };
+    writeln!(s, "(CHARACTER C E (CHARWD R 2.0) (VARCHAR{}{}{} (REP C {})))", piece(d[4], "TOP"), piece(d[5], "MID"), piece(d[6], "BOT"), ['A', 'B'][d[7] as usize]).unwrap();
+    s
+}
+const N_TAGS: u64 = 625 * 27 * 2;
+
+/// F-header: header fields and parameters.
+fn gen_header(i: u64) -> String {
+    let d = vcore::digits(i, &[4, 3, 4, 3, 3, 3, 6]);
+    let mut s = String::new();
+    match d[0] {
+        1 => s.push_str("(CODINGSCHEME TEX TEXT)\n"),
+        2 => s.push_str("(CODINGSCHEME ABCDEFGHIJKLMNOPQRSTUVWXYZ0123456789ABC)\n"), // 39 characters
+        3 => s.push_str("(CODINGSCHEME X)\n"),
+        _ => {}
+    }
+    match d[1] {
+        1 => s.push_str("(FAMILY CMR)\n"),
+        2 => s.push_str("(FAMILY ABCDEFGHIJKLMNOPQRS)\n"), // 19 characters
+        _ => {}
+    }
+    match d[2] {
+        1 => s.push_str("(FACE O 0)\n"),
+        2 => s.push_str("(FACE O 352)\n"),
+        3 => s.push_str("(FACE F BIE)\n"),
+        _ => {}
+    }
+    match d[3] {
+        1 => s.push_str("(SEVENBITSAFEFLAG TRUE)\n"),
+        2 => s.push_str("(SEVENBITSAFEFLAG FALSE)\n"),
+        _ => {}
+    }
+    match d[4] {
+        1 => s.push_str("(CHECKSUM O 0)\n"),
+        2 => s.push_str("(CHECKSUM O 37777777777)\n"),
+        _ => {}
+    }
+    s.push_str(["(DESIGNSIZE R 10.0)\n", "(DESIGNSIZE R 1.0)\n", "(DESIGNSIZE R 2047.999999)\n"][d[5] as usize]);
+    match d[6] {
+        1 => s.push_str("(FONTDIMEN (SLANT R 0.25))\n"),
+        2 => s.push_str("(FONTDIMEN (SLANT R -20.5) (SPACE R 0.333333) (STRETCH R 0.0))\n"),
+        3 => s.push_str("(FONTDIMEN (PARAMETER D 3 R 1.0))\n"),
+        4 => s.push_str("(FONTDIMEN (QUAD R 1.0) (PARAMETER D 8 R -15.999999))\n"),
+        5 => s.push_str("(HEADER D 18 O 1234567)\n(HEADER D 20 O 7)\n"),
+        _ => {}
+    }
+    s.push_str("(CHARACTER C A (CHARWD R 1.0))\n");
+    s
+}
+const N_HEADER: u64 = 4 * 3 * 4 * 3 * 3 * 3 * 6;
+
+/// F-entry: labelled one-instruction chains placed at every index around 255, behind P unreachable
+/// instructions, so that `entry point + number of restart words` hits 255, 256 and 257 exactly.
+const ENTRY_LETTERS: &[u8; 6] = b"abcdef";
+const N_ENTRY: u64 = 30 * 6 * 3;
+fn gen_entry_boundary(i: u64) -> (Prog, String) {
+    let d = vcore::digits(i, &[30, 6, 3]);
+    let (pad, k, mode) = (236 + d[0] as usize, 1 + d[1] as usize, d[2]);
+    let mut words: Vec<lk::Word> = vec![];
+    for j in 0..pad {
+        words.push([0, ENTRY_LETTERS[j % 6], 0, b'f']); // unreachable: LIG f
+    }
+    let mut starts = vec![];
+    for c in 0..k {
+        starts.push((ENTRY_LETTERS[c], words.len()));
+        let next = ENTRY_LETTERS[(c + 1) % 6];
+        words.push(if c % 2 == 0 { [128, next, 128, (c / 2 % 2) as u8] } else { [128, next, FORMS[c % 8], ENTRY_LETTERS[(c + 2) % 6]] });
+    }
+    let (rbc, lb_start) = match mode {
+        0 => (None, None),
+        1 => {
+            words.push([128, b'a', 128, 1]);
+            (Some(b'f'), Some(words.len() - 1))
+        }
+        _ => (Some(b'f'), None),
+    };
+    let p = Prog { words, starts, lb_start, rbc };
+    let mut pl = String::from("(DESIGNSIZE R 10.0)\n");
+    pl.push_str(&pl_ligtable(&p));
+    for c in ENTRY_LETTERS {
+        writeln!(pl, "(CHARACTER C {} (CHARWD R 1.0))", *c as char).unwrap();
+    }
+    (p, pl)
+}
+
+/// F-sizes: table-size boundaries (DESIGN (iii)). Returns (description, PL).
+fn gen_sizes() -> Vec<(String, String)> {
+    let cs: Vec<char> = ('A'..='Z').chain('a'..='z').chain('0'..='9').collect();
+    let mut cases = vec![];
+    for n in (248..=262).chain([300, 509, 510, 511, 512, 513, 514, 600, 1000]) {
+        for per in [1usize, 3, 7, 40] {
+            for boundary in [false, true] {
+                let mut pl = String::from("(DESIGNSIZE R 10.0)\n");
+                if boundary {
+                    pl.push_str("(BOUNDARYCHAR C z)\n");
+                }
+                for c in &cs {
+                    writeln!(pl, "(CHARACTER C {c} (CHARWD R 1.0))").unwrap();
+                }
+                pl.push_str("(LIGTABLE\n");
+                let (mut made, mut ci) = (0usize, 0usize);
+                if boundary {
+                    pl.push_str(" (LABEL BOUNDARYCHAR)\n (KRN C A R 0.5)\n (STOP)\n");
+                    made += 1;
+                }
+                while made < n {
+                    let c = cs[ci % cs.len()];
+                    ci += 1;
+                    if ci > cs.len() {
+                        break;
+                    }
+                    writeln!(pl, " (LABEL C {c})").unwrap();
+                    let k = per.min(n - made);
+                    for j in 0..k {
+                        let r = cs[(ci + j * 5) % cs.len()];
+                        if j % 4 == 3 {
+                            writeln!(pl, " (LIG C {r} C {})", cs[(ci + j) % 26]).unwrap();
+                        } else if j % 4 == 1 && boundary {
+                            writeln!(pl, " (KRN C z R -0.{})", 1 + (j % 9)).unwrap();
+                        } else {
+                            writeln!(pl, " (KRN C {r} R 0.{})", 1 + (j % 9)).unwrap();
+                        }
+                    }
+                    made += k;
+                    pl.push_str(" (STOP)\n");
+                }
+                pl.push_str(" )\n");
+                cases.push((format!("ligtable n={n} per={per} boundary={boundary}"), pl));
+            }
+        }
+    }
+    for (prop, lims) in [("CHARHT", vec![14usize, 15, 16, 17, 40]), ("CHARDP", vec![14, 15, 16, 17]), ("CHARIC", vec![62, 63, 64, 65])] {
+        for k in lims {
+            let mut pl = String::from("(DESIGNSIZE R 10.0)\n");
+            for (i, c) in cs.iter().enumerate() {
+                writeln!(pl, "(CHARACTER C {c} (CHARWD R 1.0) ({prop} R {}.{}))", (i % k) / 10, (i % k) % 10 + 1).unwrap();
+            }
+            cases.push((format!("{prop} with {k} distinct values"), pl));
+        }
+    }
+    // 254..257 distinct widths, 255/256 characters
+    for k in [254usize, 255, 256] {
+        let mut pl = String::from("(DESIGNSIZE R 10.0)\n");
+        for i in 0..k {
+            writeln!(pl, "(CHARACTER O {:o} (CHARWD R {}.{:03}))", i + (256 - k), 1 + i / 1000, i % 1000).unwrap();
+        }
+        cases.push((format!("{k} characters with {k} distinct widths"), pl));
+    }
+    for k in [255usize, 256] {
+        let mut pl = String::from("(DESIGNSIZE R 10.0)\n");
+        for i in 0..k {
+            writeln!(pl, "(CHARACTER O {:o} (CHARWD R 1.{}))", i + (256 - k), i % 7).unwrap();
+        }
+        cases.push((format!("{k} characters, 7 widths"), pl));
+    }
+    // up to 256 characters (+ the boundary) each labelling its own chain: up to 257 entry points,
+    // all of which need a restart word when enough unlabelled instructions precede them
+    for nchars in [254usize, 255, 256] {
+        for pad in [0usize, 1, 2, 255, 300] {
+            for boundary in [false, true] {
+                let mut s = String::from("(DESIGNSIZE R 10.0)\n");
+                if boundary {
+                    s.push_str("(BOUNDARYCHAR O 0)\n");
+                }
+                s.push_str("(LIGTABLE\n");
+                for _ in 0..pad {
+                    s.push_str(" (KRN O 1 R 0.1)\n");
+                }
+                if boundary {
+                    s.push_str(" (LABEL BOUNDARYCHAR)\n (KRN O 2 R 0.3)\n (STOP)\n");
+                }
+                for c in 0..nchars {
+                    writeln!(s, " (LABEL O {:o})\n (KRN O {:o} R 0.{})\n (STOP)", c, (c + 1) % nchars, 1 + c % 5).unwrap();
+                }
+                s.push_str(" )\n");
+                for c in 0..nchars {
+                    writeln!(s, "(CHARACTER O {c:o} (CHARWD R 1.0))").unwrap();
+                }
+                cases.push((format!("{nchars} characters each labelling its own chain behind {pad} unlabelled instructions, boundary label {boundary}"), s));
+            }
+        }
+    }
+    cases
+}
+
+// ------------------------------------------------------------------ generator: non-canonical TFM bytes
+
+/// Write a TFM for the alphabet a,b,c (+ d as next-larger target) with the lig/kern program `p`,
+/// in a form PLtoTF would never write, selected by the bits of `sw`:
+///   1 dimension tables in descending order with a duplicate and an unused entry
+///   2 bc lowered by two and ec raised by one (nonexistent characters at both ends)
+///   4 an orphan instruction in front of the lig/kern array
+///   8 every entry point goes through a restart word although it is below 256
+///  16 kern table reversed, with a duplicate in front
+///  32 two extra header words (lh = 20) and seven-bit-safe byte 255
+///  64 `a` has an extensible recipe... no: c gets NEXTLARGER d
+fn write_tfm(p: &Prog, sw: u32) -> Vec<u8> {
+    let has = |b: u32| sw & b != 0;
+    // characters: a b c d
+    let wd: [i32; 4] = [1 << 20, 3 << 19, 1 << 19, 2 << 20];
+    let ht: [i32; 4] = [0, 1 << 20, 1 << 20, 3 << 19];
+    let (mut width, mut height): (Vec<i32>, Vec<i32>) = (vec![0], vec![0]);
+    if has(1) {
+        let mut w: Vec<i32> = wd.to_vec();
+        w.sort();
+        w.reverse();
+        width.extend(&w);
+        width.push(w[0]); // duplicate
+        width.push(7 << 20); // unused
+        height.extend([3 << 19, 5 << 20, 1 << 20]); // descending-ish, 5.0 unused
+    } else {
+        let mut w: Vec<i32> = wd.to_vec();
+        w.sort();
+        w.dedup();
+        width.extend(&w);
+        height.extend([1 << 20, 3 << 19]);
+    }
+    let widx = |v: i32| width.iter().position(|x| *x == v).unwrap() as u8;
+    let hidx = |v: i32| height.iter().position(|x| *x == v).unwrap() as u8;
+    // lig/kern array
+    let mut words: Vec<[u8; 4]> = vec![];
+    let mut kern: Vec<i32> = KERNS.to_vec();
+    let mut kmap: Vec<u8> = vec![0, 1];
+    if has(16) {
+        kern = vec![KERNS[1], KERNS[1], KERNS[0]];
+        kmap = vec![2, 1];
+    }
+    let n_restart = if has(8) { p.starts.len() } else { 0 };
+    let front = (p.rbc.is_some() as usize).max(0);
+    // layout: [boundary carrier?] [restart words] [orphan?] program [left boundary word?]
+    let carrier_in_restart = has(8) && p.rbc.is_some() && n_restart > 0;
+    let n_front = if carrier_in_restart { n_restart } else { front + n_restart };
+    let orphan = has(4) as usize;
+    let base = n_front + orphan;
+    let mut start_of = std::collections::BTreeMap::new();
+    if p.words.is_empty() && p.rbc.is_none() {
+        // nothing
+    } else {
+        if p.rbc.is_some() && !carrier_in_restart {
+            words.push([255, p.rbc.unwrap(), 0, 0]);
+        }
+        for (i, (c, st)) in p.starts.iter().enumerate() {
+            if has(8) {
+                let t = base + st;
+                // the first restart word doubles as boundary carrier (skip byte 255)
+                let skip = if i == 0 && p.rbc.is_some() { 255 } else { 254 };
+                start_of.insert(*c, words.len() as u8);
+                words.push([skip, p.rbc.unwrap_or(0), (t >> 8) as u8, t as u8]);
+            } else {
+                start_of.insert(*c, (base + st) as u8);
+            }
+        }
+        if has(4) {
+            words.push([128, b'a', 128, 0]); // unreachable kern
+        }
+        for w in &p.words {
+            let [skip, next, op, rem] = *w;
+            words.push(if op >= 128 { [skip, next, 128, kmap[rem as usize]] } else { [skip, next, op, rem] });
+        }
+        if let Some(l) = p.lb_start {
+            let t = base + l;
+            words.push([255, 0, (t >> 8) as u8, t as u8]);
+        }
+    }
+    // char_info
+    let (bc, ec) = if has(2) { (b'a' - 2, b'd' + 1) } else { (b'a', b'd') };
+    let mut char_info: Vec<[u8; 4]> = vec![];
+    for c in bc..=ec {
+        if !(b'a'..=b'd').contains(&c) {
+            char_info.push([0; 4]);
+            continue;
+        }
+        let k = (c - b'a') as usize;
+        let (mut tag, mut rem) = (0u8, 0u8);
+        if let Some(s) = start_of.get(&c) {
+            tag = 1;
+            rem = *s;
+        } else if c == b'c' && has(64) {
+            tag = 2;
+            rem = b'd';
+        }
+        char_info.push([widx(wd[k]), hidx(ht[k]) << 4, tag, rem]);
+    }
+    // header
+    let mut header: Vec<[u8; 4]> = vec![[0x12, 0x34, 0x56, 0x78], (10i32 << 20).to_be_bytes()];
+    let mut hb = vec![0u8; 64];
+    hb[0] = 4;
+    hb[1..5].copy_from_slice(b"TEST");
+    hb[40] = 3;
+    hb[41..44].copy_from_slice(b"ABC");
+    hb[60] = if has(32) { 255 } else { 0 };
+    hb[63] = 0o352;
+    for ch in hb.chunks(4) {
+        header.push([ch[0], ch[1], ch[2], ch[3]]);
+    }
+    if has(32) {
+        header.push([0, 0, 0, 9]);
+        header.push([1, 2, 3, 4]);
+    }
+    let param: Vec<i32> = vec![1 << 18, 1 << 19];
+    let sizes: [usize; 12] = [0, header.len(), bc as usize, ec as usize, width.len(), height.len(), 1, 1, words.len(), if words.is_empty() { 0 } else { kern.len() }, 0, param.len()];
+    let mut out: Vec<u8> = vec![];
+    let lf = 6 + sizes[1] + (ec - bc + 1) as usize + sizes[4] + sizes[5] + 2 + sizes[8] + sizes[9] + sizes[11];
+    for (i, v) in sizes.iter().enumerate() {
+        out.extend(((if i == 0 { lf } else { *v }) as u16).to_be_bytes());
+    }
+    for w in header.iter().chain(char_info.iter()) {
+        out.extend(w);
+    }
+    for t in [&width, &height, &vec![0], &vec![0]] {
+        for v in t.iter() {
+            out.extend(v.to_be_bytes());
+        }
+    }
+    for w in &words {
+        out.extend(w);
+    }
+    if !words.is_empty() {
+        for v in &kern {
+            out.extend(v.to_be_bytes());
+        }
+    }
+    for v in &param {
+        out.extend(v.to_be_bytes());
+    }
+    out
+}
+
+// ------------------------------------------------------------------ corpus
+
+fn corpus() -> Vec<(String, Vec<u8>)> {
+    let root = std::env::var("VERIF_REPO").unwrap_or("/repo".into());
+    let mut out = vec![];
+    for dir in ["originals", "computer-modern", "ctan", "fuzz"] {
+        let Ok(rd) = std::fs::read_dir(format!("{root}/crates/tfm/corpus/{dir}")) else { continue };
+        for e in rd.flatten() {
+            let p = e.path();
+            if p.extension().and_then(|x| x.to_str()) == Some("tfm") {
+                if let Ok(b) = std::fs::read(&p) {
+                    out.push((format!("{dir}/{}", p.file_name().unwrap().to_string_lossy()), b));
+                }
+            }
+        }
+    }
+    out.sort();
+    out
+}
+
+// ------------------------------------------------------------------ model self-validation
+
+/// tfmraw + ligkern against what the repository records about cmr10 (TeX's own font):
+/// crates/tfm/corpus/computer-modern/cmr10.plst (written by Knuth's TFtoPL): 128 characters,
+/// 7 parameters, checksum O 11374260171, design size 10, `f i` -> O 14, `f f i` -> O 16 via O 13,
+/// kern A V etc.; boxworks-text tests use the same ligatures.
+fn self_validate(ctx: &mut Ctx, files: &[(String, Vec<u8>)]) {
+    let Some((_, b)) = files.iter().find(|(n, _)| n == "computer-modern/cmr10.tfm") else {
+        ctx.machinery_error("self-validation: corpus file computer-modern/cmr10.tfm not found");
+        return;
+    };
+    let r = match tfmraw::parse(b) {
+        Ok(r) => r,
+        Err(e) => {
+            ctx.machinery_error(format!("self-validation: tfmraw rejects cmr10.tfm: {e:?}"));
+            return;
+        }
+    };
+    let mut bad = vec![];
+    if r.chars().len() != 128 || r.np != 7 || r.checksum() != 0o11374260171 || r.design_size() != 10 << 20 {
+        bad.push(format!("cmr10 header/size facts: chars={} np={} checksum={:o} ds={}", r.chars().len(), r.np, r.checksum(), r.design_size()));
+    }
+    if !r.tex_load_errors().is_empty() {
+        bad.push(format!("cmr10 would not load in TeX according to tfmraw: {:?}", r.tex_load_errors()));
+    }
+    // (SPACE R 0.333334) = 349526, (QUAD R 1.000003) = 1048579
+    if r.param.get(1) != Some(&349526) || r.param.get(5) != Some(&1048579) {
+        bad.push(format!("cmr10 params {:?}", r.param));
+    }
+    let f = lig_font(&r);
+    let run = |w: &[u8]| lk::run(&f, w, true, f.bchar, 1000).map(|x| vnodes(&r, &x.nodes));
+    // cmr10.plst: (LABEL C f)(LIG C i O 14)(LIG C f O 13)...; (LABEL O 13)(LIG C i O 16)
+    if run(b"fi") != Some(vec![VNode::Lig(0o14, b"fi".to_vec(), false, false)]) {
+        bad.push(format!("cmr10 fi -> {:?}", run(b"fi")));
+    }
+    if run(b"ffi") != Some(vec![VNode::Lig(0o16, b"ffi".to_vec(), false, false)]) {
+        bad.push(format!("cmr10 ffi -> {:?}", run(b"ffi")));
+    }
+    // (LABEL C A) ... (KRN C V R -0.111112) = -116509
+    if run(b"AV") != Some(vec![VNode::Char(b'A'), VNode::Kern(Some(-116509)), VNode::Char(b'V')]) {
+        bad.push(format!("cmr10 AV -> {:?}", run(b"AV")));
+    }
+    // `` -> O 134 (open quotes), --- -> O 174 through O 173
+    if run(b"---") != Some(vec![VNode::Lig(0o174, b"---".to_vec(), false, false)]) {
+        bad.push(format!("cmr10 --- -> {:?}", run(b"---")));
+    }
+    for m in bad {
+        ctx.machinery_error(format!("model self-validation: {m}"));
+    }
+}
+
+// ------------------------------------------------------------------ main
+
 fn main() {
-    eprintln!("c11: check not built yet");
-    std::process::exit(2);
+    let mut ctx = Ctx::new("C11", Level::Exploration);
+    ctx.assume("quantified over TFM files for which tfm_to_pl returns a property list and no message; other files are skipped and counted");
+    ctx.assume("fonts with more than 254 parameters are outside what a property list can express (PLtoTF max_param_words): their parameters are not compared");
+    ctx.assume("the two property list texts may differ (unreachable instructions and unused table entries of the original are only visible in the first); the requirement is on the TFM bytes");
+    ctx.assume("header fields are compared as far as the original has them (lh < 18: PLtoTF fills the rest with its defaults); BCPL strings by content modulo ASCII case (TFtoPL writes lower case letters as upper case without a message; a property list cannot carry them); the seven-bit-safe flag of the canonical file is the one PLtoTF computes (Knuth's recorded corpus conversions turn it on for ctan/rashii2), so it is compared with an independent computation on the original instead of the original's byte; dimension, kern and extensible tables by value, not by index");
+    ctx.assume("lig/kern behaviour = list built by TeX's main loop (reftex::ligkern) for every word of one or two existing characters, with and without left boundary, followed by the right boundary");
+    let files = corpus();
+    self_validate(&mut ctx, &files);
+    let space2 = Space::new(2);
+    let space1 = Space::new(1);
+    let sizes = gen_sizes();
+    let rbcs = [None, Some(b'c'), Some(b'a')];
+    let pl_layouts = [Layout::Consecutive, Layout::Padded, Layout::SkipForeign, Layout::FallThrough, Layout::SharedTail];
+
+    if let Some((_fam, case)) = ctx.replay_case() {
+        let mut acc = Acc::default();
+        let c2 = case.clone();
+        let origin = move || {
+            let mut v = c2.clone();
+            if let Some(o) = v.as_object_mut() {
+                o.remove("pl");
+                o.remove("hex");
+            }
+            v
+        };
+        if case["kind"] == "pl-entrypoint-boundary" {
+            let (p, pl) = gen_entry_boundary(case["i"].as_u64().unwrap_or(0));
+            let af = Font::new(p.words.clone(), &p.starts, p.rbc, p.lb_start);
+            check_pl(0, &pl, &origin, Some((&af, &KERNS[..], &ENTRY_LETTERS[..])), &mut acc);
+        } else if let Some(pl) = case["pl"].as_str() {
+            // the abstract program is rebuilt when the case names one
+            let af = case.get("rules").and_then(|r| r.as_array()).map(|a| {
+                let rules: Vec<Rule> = a.iter().map(|r| Rule { left: r[0].as_u64().unwrap() as u8, right: r[1].as_u64().unwrap() as u8, op: r[2].as_u64().unwrap() as u8 }).collect();
+                let p = build(&rules, case["rbc"].as_u64().map(|c| c as u8), LAYOUTS[case["layout"].as_u64().unwrap_or(0) as usize]).expect("replayable program");
+                Font::new(p.words.clone(), &p.starts, p.rbc, p.lb_start)
+            });
+            check_pl(0, pl, &origin, af.as_ref().map(|f| (f, &KERNS[..], &b"abcdef"[..])), &mut acc);
+        } else if let Some(f) = case["file"].as_str() {
+            match files.iter().find(|(n, _)| n == f) {
+                Some((_, b)) => check_tfm(0, b, &origin, &mut acc),
+                None => {
+                    eprintln!("replay: corpus file {f} not found");
+                    std::process::exit(2)
+                }
+            }
+        } else {
+            check_tfm(0, &unhex(case["hex"].as_str().unwrap_or("")), &origin, &mut acc);
+        }
+        ctx.finish_replay(acc);
+    }
+
+    // (i) corpus
+    {
+        let fs = &files;
+        ctx.family("corpus", &format!("every .tfm under crates/tfm/corpus ({} files)", files.len()), files.len() as u64, |i, acc| {
+            let (name, b) = &fs[i as usize];
+            check_tfm(i, b, &|| json!({"kind": "corpus", "file": name}), acc);
+            acc.sample(i, || json!({"file": name, "bytes": b.len()}));
+        });
+    }
+    // (ii) generated property lists
+    ctx.family("pl-dimensions", "characters A (every width/height/depth/italic of {0,1,1.5,-0.5}^4), B (16-point sub-lattice), C present or absent", N_DIMENSIONS, |i, acc| {
+        check_pl(i, &gen_dimensions(i), &|| json!({"kind": "pl-dimensions", "i": i}), None, acc);
+    });
+    ctx.family("pl-tags", "every NEXTLARGER partial function on {A,B,C,D} (cycles included) x VARCHAR on E with TOP/MID/BOT in {absent,A,D} and REP in {A,B}", N_TAGS, |i, acc| {
+        check_pl(i, &gen_tags(i), &|| json!({"kind": "pl-tags", "i": i}), None, acc);
+    });
+    ctx.family("pl-header", "coding scheme (absent, short, 39 characters) x family x face x seven-bit-safe flag x checksum (absent/0/max) x design size x font parameters / extra header words", N_HEADER, |i, acc| {
+        check_pl(i, &gen_header(i), &|| json!({"kind": "pl-header", "i": i}), None, acc);
+    });
+    {
+        let max_rules = ctx.pick(2usize, 3usize);
+        let sp3;
+        let sp: &Space = if max_rules == 2 {
+            &space2
+        } else {
+            sp3 = Space::new(3);
+            &sp3
+        };
+        // thorough: 3 rules only in the consecutive layout (the other layouts with <= 2 rules)
+        let nl = pl_layouts.len() as u64;
+        let n = sp.len() * 3 * nl;
+        let s2len = space2.len();
+        ctx.family(
+            "pl-ligtables",
+            &format!("LIGTABLEs written from the C05 program space: every set of <= {max_rules} rules (<= 2 outside the consecutive layout) x boundarychar in {{none,c,a}} x 5 label layouts (separate chains; 300 unreachable instructions in front = entry points beyond 255; SKIP over a foreign instruction; chains without STOP between them = several labels per chain; c labelling the last instruction of a chain); the TFM is also compared with the program as written"),
+            n,
+            |i, acc| {
+                let d = vcore::digits(i, &[sp.len(), 3, nl]);
+                let layout = pl_layouts[d[2] as usize];
+                if layout != Layout::Consecutive && d[0] >= s2len {
+                    return; // not enumerated (see bounds text)
+                }
+                let rules = sp.rules(d[0]);
+                let Some(p) = build(&rules, rbcs[d[1] as usize], layout) else {
+                    return;
+                };
+                let af = Font::new(p.words.clone(), &p.starts, p.rbc, p.lb_start);
+                let pl = pl_abc(&pl_ligtable(&p));
+                if !rules.is_empty() && d[2] == 0 {
+                    acc.count("ligtable_fonts");
+                }
+                check_pl(i, &pl, &|| json!({"kind": "pl-ligtables", "rules": rules.iter().map(|r| vec![r.left, r.right, r.op]).collect::<Vec<_>>(), "rbc": p.rbc, "layout": LAYOUTS.iter().position(|l| *l == layout), "text": describe_rules(&rules, p.rbc)}), Some((&af, &KERNS[..], &LETTERS[..])), acc);
+            },
+        );
+    }
+    // (iii) entry points around 255
+    ctx.family("pl-entrypoint-boundary", "236..265 unreachable instructions followed by 1..6 labelled one-instruction chains (kerns and ligatures) x {no boundary, BOUNDARYCHAR with a boundary label, BOUNDARYCHAR without}: every alignment of entry point + restart words around 255/256; the TFM is also compared with the program as written", N_ENTRY, |i, acc| {
+        let (p, pl) = gen_entry_boundary(i);
+        let af = Font::new(p.words.clone(), &p.starts, p.rbc, p.lb_start);
+        acc.count("entrypoint_boundary_fonts");
+        check_pl(i, &pl, &|| json!({"kind": "pl-entrypoint-boundary", "i": i}), Some((&af, &KERNS[..], &ENTRY_LETTERS[..])), acc);
+    });
+    // (iii) size boundaries
+    {
+        let sz = &sizes;
+        ctx.family("pl-size-boundaries", "lig tables of 248..262, 300, 509..514, 600, 1000 instructions in chains of 1/3/7/40 with and without boundary label and boundary kerns; 14..17/40 heights, 14..17 depths, 62..65 italics; 254..256 characters with as many widths; 254..256 characters each labelling its own chain behind 0/1/2/255/300 unlabelled instructions (up to 257 entry points needing a restart word)", sizes.len() as u64, |i, acc| {
+            let (name, pl) = &sz[i as usize];
+            check_pl(i, pl, &|| json!({"kind": "pl-size-boundaries", "name": name}), None, acc);
+        });
+    }
+    // (iv) TFM files PLtoTF would never write
+    {
+        let quick = ctx.quick();
+        let sp: &Space = if quick { &space1 } else { &space2 };
+        let variants: Vec<u32> = if quick { (0..128).collect() } else { vec![0, 1, 2, 4, 8, 16, 32, 64, 127, 8 + 4, 8 + 16, 1 + 2 + 64] };
+        let nv = variants.len() as u64;
+        let n = sp.len() * 3 * 3 * nv;
+        let tfm_layouts = [Layout::Consecutive, Layout::FallThrough, Layout::SkipForeign];
+        let vs = &variants;
+        ctx.family(
+            "tfm-noncanonical",
+            &format!("hand-written TFM files for the characters a,b,c,d with the lig/kern program of every set of <= {} rules x boundarychar x 3 chain layouts, in {} non-canonical forms (unsorted tables with duplicates and unused entries; nonexistent characters at both ends of bc..ec; orphan instruction; restart words for small entry points, the first doubling as boundary-character carrier; permuted kern table; lh=20; NEXTLARGER on c)", sp.max_rules, nv),
+            n,
+            |i, acc| {
+                let d = vcore::digits(i, &[sp.len(), 3, 3, nv]);
+                let rules = sp.rules(d[0]);
+                let Some(p) = build(&rules, rbcs[d[1] as usize], tfm_layouts[d[2] as usize]) else {
+                    return;
+                };
+                let sw = vs[d[3] as usize];
+                let b = write_tfm(&p, sw);
+                let before = acc.nontrivial;
+                check_tfm(i, &b, &|| json!({"kind": "tfm-noncanonical", "text": describe_rules(&rules, p.rbc), "layout": format!("{:?}", tfm_layouts[d[2] as usize]), "switches": sw}), acc);
+                if acc.nontrivial > before {
+                    // which non-canonical forms were really checked (not skipped for a TFtoPL message)
+                    for (bit, name) in [(1u32, "noncanonical_unsorted_tables"), (2, "noncanonical_nonexistent_chars_in_range"), (4, "noncanonical_orphan_instruction"), (8, "noncanonical_restart_words"), (16, "noncanonical_permuted_kerns"), (32, "noncanonical_long_header"), (64, "noncanonical_next_larger")] {
+                        if sw & bit != 0 {
+                            acc.count(name);
+                        }
+                    }
+                }
+            },
+        );
+    }
+    ctx.require("original_not_canonical", "files whose canonical form differs from the original bytes");
+    ctx.require("original_already_canonical", "files that are their own canonical form");
+    ctx.require("instruction_beyond_255_fired", "a lig/kern instruction at an index above 255 fired (entry-point redirection in use)");
+    ctx.require("left_boundary_rule_fired", "a left boundary rule fired");
+    ctx.require("right_boundary_rule_fired", "a rule fired against the right boundary character");
+    ctx.require("more_than_255_ligkern_words", "fonts with more than 255 lig/kern words");
+    ctx.require("char_with_next_larger", "characters with a NEXTLARGER tag compared");
+    ctx.require("char_with_extensible_recipe", "characters with a VARCHAR recipe compared");
+    for n in ["noncanonical_unsorted_tables", "noncanonical_nonexistent_chars_in_range", "noncanonical_orphan_instruction", "noncanonical_restart_words", "noncanonical_permuted_kerns", "noncanonical_long_header", "noncanonical_next_larger"] {
+        ctx.require(n, "hand-written TFM files of this non-canonical form that TFtoPL read without message");
+    }
+    ctx.require("seven_bit_unsafe_fonts", "fonts that are not seven-bit safe");
+    ctx.require("ligtable_checked_against_generator", "generated LIGTABLEs whose TFM was compared with the program as written");
+    ctx.finish("one evaluation per original TFM file (corpus file, TFM of a generated property list, or hand-written TFM); non-trivial = TFtoPL converts it without any message, so the whole requirement is checked; the rest is skipped and counted by reason");
 }
